@@ -567,6 +567,26 @@ theorem inv_filterAdd (p : α → Except Err Bool) {acc r : KS α κ} (xs : List
           obtain ⟨h1, h2⟩ := ih hi' h
           exact ⟨h1, h2.trans hk'⟩
 
+theorem sameKind_filterAdd (p : α → Except Err Bool) {acc r : KS α κ} (xs : List α)
+    (h : filterAdd p acc xs = .ok r) : SameKind r acc := by
+  induction xs generalizing acc with
+  | nil => unfold filterAdd at h; cases h; exact SameKind.refl _
+  | cons x xs ih =>
+    unfold filterAdd at h
+    cases hp : p x with
+    | error e => simp [hp] at h
+    | ok b =>
+      cases b with
+      | false => simp only [hp] at h; exact ih h
+      | true =>
+        simp only [hp] at h
+        cases ha : add acc x with
+        | error e => simp [ha] at h
+        | ok acc' =>
+          simp only [ha] at h
+          obtain ⟨k, _, hacc', _⟩ := add_ok ha
+          exact (ih h).trans (by rw [hacc']; exact ⟨rfl, rfl⟩)
+
 theorem inv_fromIterable {s r : KS α κ} {xs : List α} (h : fromIterable s xs = .ok r) :
     Inv r ∧ SameKind r s := by
   obtain ⟨h1, h2⟩ := inv_filterAdd _ xs (inv_emptyLike s) h
@@ -1138,7 +1158,7 @@ theorem discard_plain {s : KS α κ} {x : α} {k : κ} (hp : PlainFor s [x]) (ha
   · rcases discard_ok hs' with rfl | ⟨_, _, rfl⟩
     · exact SameKind.refl _
     · exact ⟨rfl, rfl⟩
-  · rcases discard_cases hs' with ⟨k', hk', rfl⟩ | ⟨hn, rfl⟩
+  · rcases discard_cases hs' with ⟨k', hk', rfl⟩ | ⟨hn, he⟩
     · -- the denoted key is `k`
       have : k' = k := by
         rcases hk' with ⟨h1, h2⟩ | ⟨h1, _, _⟩
@@ -1148,6 +1168,7 @@ theorem discard_plain {s : KS α κ} {x : α} {k : κ} (hp : PlainFor s [x]) (ha
       subst this
       intro j; exact dictGet_dictDel _ _ _
     · intro j
+      rw [he]
       by_cases hj : j = k
       · subst hj
         simp only [if_true]
@@ -1190,8 +1211,8 @@ theorem iter_pairwise {s : KS α κ} (hwf : WF s) :
     refine ⟨?_, ih h1.2 (fun k v h => hk k v (List.mem_cons_of_mem _ h))⟩
     intro q hq
     rw [hk p.1 p.2 List.mem_cons_self, hk q.1 q.2 (List.mem_cons_of_mem _ hq)]
-    intro e; cases e
-    exact h1.1 q hq rfl
+    intro e
+    exact h1.1 q hq (Except.ok.inj e)
 
 /-- adding items with fresh, pairwise different keys never fails -/
 theorem filterAdd_fresh_succeeds (p : α → Except Err Bool) (acc : KS α κ) (xs : List α)
@@ -1245,7 +1266,7 @@ theorem filterAdd_self_succeeds (p : α → Except Err Bool) {s : KS α κ} (hi 
 theorem addAllP_none_iff (s s' : KS α κ) (xs : List α) :
     addAllP s xs = (s', none) ↔ filterAdd (fun _ => .ok true) s xs = .ok s' := by
   induction xs generalizing s with
-  | nil => simp [addAllP, filterAdd]; exact eq_comm
+  | nil => simp [addAllP, filterAdd]
   | cons x xs ih =>
     unfold addAllP filterAdd
     cases ha : add s x with
